@@ -121,11 +121,21 @@ def run_function(eng: Engine, c: Contract, ctx, fi: FuncInfo, alias=None, lemma_
     # preconditions
     for name, text in c.requires:
         st.pc.append(ex.spec_truth(st, text, env, f"{c.key}.requires.{name}"))
+    # fields the contract promises to rebind
+    keys = set()
+    for path in c.rebinds:
+        tree = ast.parse(path, mode="eval").body
+        if isinstance(tree, ast.Attribute) and isinstance(tree.value, ast.Name) and tree.value.id in env \
+                and isinstance(env[tree.value.id], VRef):
+            keys.add(("field", env[tree.value.id].loc, tree.attr))
+    ex.rebind_keys = keys
     pre = st.fork()
     ex.pre = pre
     ex.old_stack = [pre]
     ex.env0 = env
     body = strip_docstring(node.body)
+    loops = sorted((n for n in ast.walk(node) if isinstance(n, (ast.For, ast.While))), key=lambda n: (n.lineno, n.col_offset))
+    ex.loop_ordinals = {id(n): i for i, n in enumerate(loops)}
     outs = ex.exec_block(body, st)
     for cur, status in outs:
         if status != "normal":
@@ -206,6 +216,9 @@ def exit_obligations(ex: Executor, c: Contract, env, pre):
             ex.oblige(st, f"{tag}.raises.{e.exc}.only_when", w, "raises")
             if spec.get("state", "unchanged") == "unchanged":
                 frame_obligations(ex, st, pre, set(), tag + f".raises.{e.exc}.state")
+            for name, text in spec.get("ensures", []):
+                g = ex.spec_truth(st, text, env, f"{c.key}.raises.{e.exc}.{name}")
+                ex.oblige(st, f"{tag}.raises.{e.exc}.{name}", g, "raises")
     return n_paths
 
 
@@ -308,7 +321,7 @@ def background(eng):
         bg.append((("digit",), f))
     from . import tables
     for f in tables.axioms(LM.rsum):
-        bg.append((("tcount", "tsize", "lcnt"), f))
+        bg.append((("tcount", "tsize", "lcnt", "undo_cells", "undo_hand"), f))
     _BG = bg
     return bg
 
@@ -337,7 +350,7 @@ def decl_names(terms):
 
 import os as _os
 NO_PRESIMPLIFY = bool(_os.environ.get("PYVC_NOSIMP"))
-THEORY_SYMBOLS = ("tcount", "tsize", "lcnt", "rsum", "digit", "popcount", "band", "bor", "fsum", "ftot")
+THEORY_SYMBOLS = ("tcount", "tsize", "lcnt", "undo_cells", "undo_hand", "rsum", "digit", "popcount", "band", "bor", "fsum", "ftot")
 
 
 def relevant_hypotheses(ob):
